@@ -322,7 +322,9 @@ class EnsembleOptimizer:
                 else gradients.constraints[:, mask]
             )
         )
-        return (
+        # The rows of the result are passed on to the optimizer backends, some
+        # of which require contiguous arrays:
+        return np.ascontiguousarray(
             np.expand_dims(weighted_objective_gradient, axis=0)
             if constraint_gradients is None
             else np.vstack((weighted_objective_gradient, constraint_gradients))
